@@ -79,3 +79,74 @@ def recording_ode(**override):
     finally:
         evolve_mf.ode = old
         RecordingOde.override = {}
+
+
+# ------------------------------------------------------------------ tokens describing real objects for the driver
+def ifmr_tokens(im):
+    """describe a real IFMR object for the model driver (thresholds, WD polynomial, BH predictor)"""
+    import functools
+    from common import h, hl
+    wd = im._WD_spline
+    if isinstance(wd, np.polynomial.Polynomial):
+        wc = list(map(float, wd.coef))
+    elif isinstance(wd, functools.partial):          # linear WD: slope*m**1 + scale
+        kw = wd.keywords
+        if kw["exponent"] != 1:
+            raise ValueError("unsupported WD predictor")
+        wc = [float(kw["scale"]), float(kw["slope"])]
+    else:
+        raise ValueError("unsupported WD predictor")
+    bh = im._BH_spline
+    if isinstance(bh, functools.partial):
+        kw = bh.keywords
+        if "exponent" in kw:
+            spec = f"line {h(kw['exponent'])} {h(kw['slope'])} {h(kw['scale'])}"
+        else:
+            flat = []
+            mb = kw["m_breaks"]
+            for i in range(len(kw["exponents"])):
+                flat += [mb[i], mb[i + 1], kw["exponents"][i], kw["slopes"][i], kw["scales"][i]]
+            spec = f"broken {hl(flat)}"
+    else:
+        x, y = bh.get_knots(), bh.get_coeffs()
+        flat = []
+        for a, b in zip(x, y):
+            flat += [float(a), float(b)]
+        spec = f"table {hl(flat)}"
+    return f"{h(im.WD_mi[1])} {h(im.BH_mi[0])} {h(im._NS_mass)} {hl(wc)} {spec}"
+
+
+def bins_flat(b):
+    out = []
+    for l, u in zip(np.atleast_1d(b.lower), np.atleast_1d(b.upper)):
+        out += [float(l), float(u)]
+    return out
+
+
+def sev_cfg_tokens(f):
+    from common import h, hl
+    a0, a1, a2 = map(float, f._tms_constants)
+    mb = f.massbins
+    return (f"{hl(bins_flat(mb.bins.MS))} {hl(list(map(float, f.tms_u)))} {h(a0)} {h(a1)} {h(a2)} {h(f.Nmin)} "
+            f"{h(f._frem['WD'])} {h(f._frem['NS'])} {h(f._frem['BH'])} "
+            f"{hl(bins_flat(mb.bins.WD))} {hl(bins_flat(mb.bins.NS))} {hl(bins_flat(mb.bins.BH))} {ifmr_tokens(f.IFMR)}")
+
+
+def record_states(cfg_builder, max_states=400):
+    """build a real model while recording every (t, y) its derivative function is called with"""
+    rec = []
+    orig = evolve_mf.EvolvedMF._derivs
+
+    def wrapped(self, t, y):
+        if len(rec) < 20000:
+            rec.append((float(t), np.array(y, dtype=float)))
+        return orig(self, t, y)
+    evolve_mf.EvolvedMF._derivs = wrapped
+    try:
+        obj = cfg_builder()
+    finally:
+        evolve_mf.EvolvedMF._derivs = orig
+    if len(rec) > max_states:
+        step = len(rec) / max_states
+        rec = [rec[int(i * step)] for i in range(max_states)]
+    return obj, rec
